@@ -15,7 +15,7 @@ EXPLANATION = (
     "which nothing else writes, and the comparison counter+1 < max_hedged_attempts exists as its precondition; "
     "(FIRST-SUCCESS) on the Ok edge of a received result the function returns that payload without suspending."
     ' (AWAITS) the coordinating future suspends only in the race between the result channel and the hedge timer, or on the result channel; a `Sleep::reset` must be armed at now() + get_delay(..).'
-    " (EXHAUST) an attempt's error ends the hedging phase only when no further hedge can be started.")
+    " (EXHAUST) an attempt's error ends the hedging phase only when no further hedge can be started. (EVIDENCE receiver-stays-open) the coordinator never closes the result receiver at a point from which the all-attempts-failed report is reachable.")
 RULE = "one obligation per AllAttemptsFailed construction, per spawned attempt body, per loop / counter site, per Ok edge of a received result"
 TRUSTED = ["tokio mpsc channel (recv() == None iff all senders dropped and buffer empty)", "tokio::spawn", "tokio::select! macro expansion"]
 ASSUMPTIONS = ["max_hedged_attempts is the public configuration name of the bound"]
